@@ -114,6 +114,12 @@ func LoadKnown(path string) ([]KnownFinding, error) {
 
 // Finish prints the verdict lines, writes evidence and replay files and returns the exit code.
 func (r *Report) Finish(verifDir string, known []KnownFinding) int {
+	r.Normalize()
+	return r.finish(verifDir, known)
+}
+
+// Normalize sorts the obligations and makes their keys unique (idempotent).
+func (r *Report) Normalize() {
 	sort.SliceStable(r.Obls, func(i, j int) bool {
 		if r.Obls[i].Rule != r.Obls[j].Rule {
 			return r.Obls[i].Rule < r.Obls[j].Rule
@@ -129,6 +135,9 @@ func (r *Report) Finish(verifDir string, known []KnownFinding) int {
 			r.Obls[i].Construct = fmt.Sprintf("%s#%d", r.Obls[i].Construct, seen[k])
 		}
 	}
+}
+
+func (r *Report) finish(verifDir string, known []KnownFinding) int {
 	knownIdx := map[string]KnownFinding{}
 	for _, k := range known {
 		if k.Property == r.Prop && k.Status == "known" {
